@@ -50,7 +50,7 @@ theorem softDone_spec (c : Ctx) :
 
 theorem gateNested_spec (st : Static) (c c' : Ctx) (h : gateNested st c = .ok c') :
     c'.req.client = c.req.client ∧ c'.req.flags.responded = c.req.flags.responded ∧ c'.gone = c.gone
-    ∧ c'.req.flags.gotIdent = c.req.flags.gotIdent := by
+    ∧ c'.req.flags.gotIdent = c.req.flags.gotIdent ∧ c'.lim = c.lim := by
   unfold gateNested at h
   dsimp only at h
   split at h
@@ -64,7 +64,7 @@ theorem gateNested_spec (st : Static) (c c' : Ctx) (h : gateNested st c = .ok c'
 theorem trustUsername_spec (st : Static) (c c' : Ctx) (name : Bytes)
     (h : trustUsername st c name = .ok c') :
     c'.req.client = c.req.client ∧ c'.req.flags.responded = c.req.flags.responded ∧ c'.gone = c.gone
-    ∧ (c.req.flags.gotIdent = true → c'.req.flags.gotIdent = true) := by
+    ∧ (c.req.flags.gotIdent = true → c'.req.flags.gotIdent = true) ∧ c'.lim = c.lim := by
   unfold trustUsername at h
   simp only [bind, Except.bind, pure, Except.pure] at h
   split at h
